@@ -354,7 +354,7 @@ func init() {
 
 	registry["C14"] = &Check{
 		Level: "fault_enumeration",
-		Rule:  "two real systems on loopback with the generator's fault proxy (fresh per case): (1) a stream of 3-6 frames (bodies 0-1000 bytes) with the connection cut after a byte offset - in the enumeration unit EVERY offset of a fixed 4-frame stream (thorough) or every frame boundary +-2 and the first bytes (quick), in the random unit offsets drawn near boundaries and anywhere; (2) the next 1-5 connection attempts refused against a ReconnectLimit of 0-3 or a negative one (set through the public options struct; documented as "less than 1 means no retry"); (3) the peer stopped and restarted on the same addresses between bursts; (4) an injected well-framed but undecodable body of 1-5000 bytes before a drawn frame; (4b) an injected well-framed envelope that decodes but cannot be routed (empty / malformed sender address, sender path without a slash, receiver path with blanks or of no actor, malformed receiver address); (5) an injected length prefix above the 4 MiB limit; after every fault the proxy heals and the sender sends again. Oracle: the receiver's sequence is a subsequence of what was sent (no duplicate, no reordering, bodies byte-identical, nothing invented); refused attempts >= limit+1 => exactly one dead letter on the sending side and no delivery, fewer => delivered by a retry and no dead letter; after an undecodable body or an unroutable envelope every real frame of the same connection is delivered; after any fault the link recovers (a probe is delivered within 8 attempts) and every message sent after that is delivered; no message is dead-lettered twice. (6) Tell with the peer unreachable: the caller's goroutine is looked for in the reconnect loop by a stack scan (the property's own observation point). Non-trivial = the cut fell strictly inside a frame, or a retry / refusal / injection / restart happened. Distinct = hash of the case.",
+		Rule:  "two real systems on loopback with the generator's fault proxy (fresh per case): (1) a stream of 3-6 frames (bodies 0-1000 bytes) with the connection cut after a byte offset - in the enumeration unit EVERY offset of a fixed 4-frame stream (thorough) or every frame boundary +-2 and the first bytes (quick), in the random unit offsets drawn near boundaries and anywhere; (2) the next 1-5 connection attempts refused against a ReconnectLimit of 0-3 or a negative one (set through the public options struct; documented as 'less than 1 means no retry'); (3) the peer stopped and restarted on the same addresses between bursts; (4) an injected well-framed but undecodable body of 1-5000 bytes before a drawn frame; (4b) an injected well-framed envelope that decodes but cannot be routed (empty / malformed sender address, sender path without a slash, receiver path with blanks or of no actor, malformed receiver address); (5) an injected length prefix above the 4 MiB limit; after every fault the proxy heals and the sender sends again. Oracle: the receiver's sequence is a subsequence of what was sent (no duplicate, no reordering, bodies byte-identical, nothing invented); refused attempts >= limit+1 => exactly one dead letter on the sending side and no delivery, fewer => delivered by a retry and no dead letter; after an undecodable body or an unroutable envelope every real frame of the same connection is delivered; after any fault the link recovers (a probe is delivered within 8 attempts) and every message sent after that is delivered; no message is dead-lettered twice. (6) Tell with the peer unreachable: the caller's goroutine is looked for in the reconnect loop by a stack scan (the property's own observation point). Non-trivial = the cut fell strictly inside a frame, or a retry / refusal / injection / restart happened. Distinct = hash of the case.",
 		Assumptions: []string{
 			"frames that the kernel accepted before a cut may be lost (TCP): loss is allowed, only corruption / duplication / reordering is not",
 			"after an invalid length prefix the stream cannot be resynchronised: only no-crash, no corrupted delivery and recovery on a new connection are required",
